@@ -273,3 +273,7 @@ def unmodified(obj):
 
 def called(name):
     raise NotImplementedError("called() is a symbolic-only builtin")
+
+
+def call_arg(name, i):
+    raise NotImplementedError("call_arg() is a symbolic-only builtin")
